@@ -58,6 +58,8 @@ func main() {
 		os.Exit(checks.Replay(os.Args[2], os.Args[3]))
 	case "gen":
 		os.Exit(checks.DebugGen(os.Args[2:]))
+	case "plan":
+		os.Exit(checks.DebugPlan(os.Args[2:]))
 	default:
 		usage()
 	}
